@@ -161,8 +161,30 @@ def prespawn_scripts(rng, tier):
     return out
 
 
+def marked_prespawn_scripts(rng, tier):
+    """implementation only (the model's pre-spawned entities are unmarked): the client spawns its predicted entity from a bundle
+    that already includes `Replicated`; the mapping must still be honoured"""
+    out = []
+    for i in range(20 if tier == "quick" else 600):
+        nclients = rng.choice([1, 2])
+        lines = ["cfg policy=%s auth=none track=0 nclients=%d timeout=10000" % (rng.choice(["all", "black"]), nclients), "start", "sframe 0 10"]
+        for c in range(nclients):
+            lines.append("connect %d 1200" % c)
+        lines += ["cop 0 prespawnr 0", "cframe 0", "sop spawn 1 1 0=%d" % rng.randrange(50), "sop spawn 2 1 0=%d 1=%d" % (rng.randrange(50), rng.randrange(50)), "sop map 0 2 0"]
+        if rng.random() < 0.4:
+            lines.append("sframe 0 5")
+        lines.append("sframe 1 16")
+        for _ in range(rng.randrange(0, 3)):
+            lines += ["sop mutate 2 1=%d" % rng.randrange(50), "sframe 1 16"]
+        meta = dict(connected=list(range(nclients)), events=False)
+        sf = len(lines)
+        out.append(("prespawn-marked-%d" % i, lines + gen_scripts.settle_lines(meta), sf))
+    return out
+
+
 def run(tier, seed, replay):
     kws = [dict(weights=dict(cframe=4.0)), dict(policy="black", nclients=2)]
-    return sim_check("C16", tier, seed, kws, n_quick=120, n_thorough=12000, oracle_props={"C16", "C01", "C03"}, known_ids=("D17", "D32"),
-                     custom_scripts=prespawn_scripts,
+    return sim_check("C16", tier, seed, kws, n_quick=120, n_thorough=12000, oracle_props={"C16", "C01", "C03"}, known_ids=("D17", "D32", "D33"),
+                     custom_scripts=prespawn_scripts, impl_only_scripts=marked_prespawn_scripts,
+                     impl_only_label="a pre-spawned client entity that already carries the Replicated marker",
                      rule_extra=", plus scenarios centred on a pre-spawn mapping issued in the same or an earlier frame of the tick in which the entity becomes visible, with client-side despawn of the pre-spawned entity before arrival")
